@@ -81,7 +81,8 @@ def make_pop(name, date, as_dict):
     if name == "p2":
         kids = [q for q in P if q["p_id_elternteil_1"] == P[len(structs[0])]["p_id"]]
         for j, q in enumerate(kids):
-            q.update({"alter": 1 + 2 * j, "geburtsjahr": 2023 - (1 + 2 * j), "kind": True, "bruttolohn_m": 0.0, "in_ausbildung": (1 + 2 * j) >= 6, "p_id_kindergeld_empf": P[len(structs[0])]["p_id"]})
+            q.update({"alter": 1 + 2 * j, "geburtsjahr": 2023 - (1 + 2 * j), "kind": True, "bruttolohn_m": 0.0, "in_ausbildung": (1 + 2 * j) >= 6, "p_id_kindergeld_empf": P[len(structs[0])]["p_id"],
+                      "rentner": False, "voll_erwerbsgemind": False, "teilw_erwerbsgemind": False, "m_pflichtbeitrag": 0.0, "arbeitssuchend": False, "eink_selbst_m": 0.0, "jahr_renteneintr": 2023 - (1 + 2 * j) + 67})
     df = gs.build_population(P, "2023-01-01")
     if not as_dict:
         # the caller's DataFrame holds two columns in a losslessly convertible other dtype (whole euros as integers, ids read
